@@ -207,29 +207,36 @@ def replay_failure(pid, u, res):
         lines.append(f"counterexample for '{cx['check']}': {cx['values']}  raw={cx['raw']}")
         if u.replay and cx["values"]:
             try:
-                script, judge = u.replay(cx["values"])
+                cands = u.replay(cx["values"])
             except Exception as e:  # template cannot express these values
                 lines.append(f"  replay template not applicable: {e}")
                 continue
-            if script is None:
-                continue
-            if binary is None:
-                try:
-                    binary = build_real_binary()
-                except Undecided as e:
-                    lines.append(f"  could not build real binary: {e}")
-                    break
-            rc, so, se = run_script(binary, script)
-            verdict = judge(rc, so, se)
-            lines.append("  replay script (run on the real binary built from /repo's working tree):")
-            for l in script.splitlines():
-                lines.append("    | " + l)
-            lines.append(f"  exit status: {rc}")
-            lines.append(f"  stdout: {so!r}")
-            lines.append(f"  stderr: {se!r}")
-            if verdict:
-                lines.append(f"  REPRODUCED on the real binary: {verdict}")
-                reproduced = True
-            else:
-                lines.append("  not reproduced by this script")
+            if isinstance(cands, tuple):          # one (script, judge) pair, or a list of pairs
+                cands = [cands]
+            stop = False
+            for script, judge in cands:
+                if script is None:
+                    continue
+                if binary is None:
+                    try:
+                        binary = build_real_binary()
+                    except Undecided as e:
+                        lines.append(f"  could not build real binary: {e}")
+                        stop = True
+                        break
+                rc, so, se = run_script(binary, script)
+                verdict = judge(rc, so, se)
+                lines.append("  replay script (run on the real binary built from /repo's working tree):")
+                for l in script.splitlines():
+                    lines.append("    | " + l)
+                lines.append(f"  exit status: {rc}")
+                lines.append(f"  stdout: {so!r}")
+                lines.append(f"  stderr: {se!r}")
+                if verdict:
+                    lines.append(f"  REPRODUCED on the real binary: {verdict}")
+                    reproduced = True
+                else:
+                    lines.append("  not reproduced by this script")
+            if stop:
+                break
     return "\n".join(lines) + "\n", reproduced
